@@ -526,6 +526,11 @@ class BuiltinMixin:
             return self.str_split(s, args, kwargs, st)
         if name == "__hash__":
             return SV(TInt, z3.Function("py_hash_str", z3.StringSort(), z3.IntSort())(t))
+        if name == "strip" and not args and not kwargs:
+            # a token of a whitespace split carries no blanks (the WS_* model): strip() returns it unchanged; other texts: an uninterpreted function
+            if z3.is_app(t) and t.decl().kind() == z3.Z3_OP_SELECT and z3.is_app(t.arg(0)) and t.arg(0).decl().name() == WS_ARR.name():
+                return SV(TStr, t)
+            return SV(TStr, z3.Function("py_str_strip", z3.StringSort(), z3.StringSort())(t))
         raise Unsupported(f"str.{name}")
 
     def str_split(self, s, args, kwargs, st):
